@@ -108,7 +108,7 @@ fn elem_for(it: Option<It>, i: usize) -> String {
     }
 }
 
-const PREDECL: &str = "v0 := null\nv1 := null\nv2 := null\nv3 := null\nv4 := null\nv5 := null\nv6 := null\nv7 := null\nv8 := null\nv9 := null\nv10 := null\nv11 := null\nk := null\nr := null\na := null\nb := null\nc := null\nn0 := null\nn1 := null\nn2 := null\n";
+const PREDECL: &str = "v0 := null\nv1 := null\nv2 := null\nv3 := null\nv4 := null\nv5 := null\nv6 := null\nv7 := null\nv8 := null\nv9 := null\nv10 := null\nv11 := null\nv12 := null\nv13 := null\nv14 := null\nv15 := null\nk := null\nr := null\na := null\nb := null\nc := null\nn0 := null\nn1 := null\nn2 := null\n";
 
 fn in_position(pos: usize, pat: &str, src: &str, prints: &str) -> String {
     match pos {
@@ -131,7 +131,7 @@ fn list_cases(max_width: usize, out: &mut Vec<Case>) {
             }
             for rest in 0..3u8 {
                 let p = list_pattern(&items, rest);
-                for m in 0..=5usize {
+                for m in 0..=(max_width + 1).max(5) {
                     let src_items: Vec<String> = (0..m).map(|i| elem_for(items.get(i).copied(), i)).collect();
                     let src = format!("[{}]", src_items.join(", "));
                     let len_ok = if p.rest.is_some() { m >= p.n_plain } else { m == p.n_plain };
@@ -422,10 +422,10 @@ impl Check for C13 {
     }
 
     fn run(&self, ctx: &mut Ctx) -> Result<(), MachineryError> {
-        let width = ctx.tier.pick(4usize, 5usize);
+        let width = ctx.tier.pick(4usize, 6usize);
         let thorough = ctx.tier == Tier::Thorough;
         ctx.rule = format!(
-            "complete product: list patterns of width 0..{} over {{name, _, [n, n], [n, ..n], {{\"k\": n}}, {{k}}}} x {{no rest, ..r, .._}} x source lengths 0..5 x 4 binding positions (declaration, assignment, for target, parameter), a wrong-kind element under each nested item, non-list sources; object patterns over every ordered selection of <= 3 of the keys a, b, c x 4 entry forms (shorthand, rename, rename to _, nested list) x rest x all 32 source key subsets of {{a, b, c, x, y}} x binding positions, non-object sources; 30 malformed patterns; spread laws for all length pairs 0..3; argument splits of 0..5 arguments over parameter lists of arity 0..4 with and without rest; 20 programs whose targets are elements of the source or whose literal source reads the targets (swaps, rotations); non-trivial = all (distinct tuples)",
+            "complete product: list patterns of width 0..{} over {{name, _, [n, n], [n, ..n], {{\"k\": n}}, {{k}}}} x {{no rest, ..r, .._}} x source lengths 0..max(5, width + 1) x 4 binding positions (declaration, assignment, for target, parameter), a wrong-kind element under each nested item, non-list sources; object patterns over every ordered selection of <= 3 of the keys a, b, c x 4 entry forms (shorthand, rename, rename to _, nested list) x rest x all 32 source key subsets of {{a, b, c, x, y}} x binding positions, non-object sources; 30 malformed patterns; spread laws for all length pairs 0..3; argument splits of 0..5 arguments over parameter lists of arity 0..4 with and without rest; 20 programs whose targets are elements of the source or whose literal source reads the targets (swaps, rotations); non-trivial = all (distinct tuples)",
             width
         );
         let mut cases = vec![];
